@@ -277,6 +277,35 @@ def identical_lookups(res, ctx, rng, arities):
                 res.count('identical_lookup_windows')
 
 
+def sibling_lookups(res, ctx, rng, arities):
+    """Two (or three) DIFFERENT paths that begin alike - files of one directory: the same vnode id, the same first record
+    (24 bytes and more in common), on a coarse time base the same timestamp - looked up in one window, alone and inside
+    every two-path call.  Their first records are byte for byte identical; they are still different lookups with
+    different texts."""
+    two = sorted(n for n, a in arities.items() if a and a >= 2 and n not in ('BSC_symlinkat', 'BSC_posix_spawn')) or ['BSC_rename']
+    idx = 0
+    for common in (24, 25, 31, 40, 56, 57, 88, 120):
+        for tails in ((b'README.old', b'README'), (b'a', b'b'), (b'x' * 40, b'x' * 39 + b'y'), (b'one', b'two', b'three'),
+                      (b'', b'.bak')):
+            for step in (0, 7):
+                idx += 1
+                if not ctx.mine(idx):
+                    continue
+                prefix = (b'/usr/local/share/doc/pkg-1.0/' + ascii_text(common, idx))[:common]
+                texts = [prefix + t for t in tails if len(prefix + t) <= 184]
+                vn = rng.choice((0x7711, 0xffffff8012345678, 0))
+                nested = [a for t in texts for a in H.lookup(vn, t)]
+                want = [(t.decode(), vn) for t in texts]
+                label = (f'{len(texts)} lookups of one directory (vnode {hex(vn)}, {common} bytes in common, tails {list(tails)}, '
+                         f'{"one tick" if step == 0 else "distinct ticks"})')
+                check_lookup_history(res, H.materialize(H.on_thread(7, nested), step=step), want, 'stand-alone: ' + label)
+                for name in two:
+                    seq = H.gen_syscall(rng, name, nested)
+                    check_lookup_history(res, H.materialize(H.on_thread(7, seq), step=step), want, f'{name}: ' + label,
+                                         enclosing=name, arity=arities[name])
+                    res.count('sibling_lookup_windows')
+
+
 EDGE_CHARS = [chr(c) for c in range(0x20, 0x7f) if chr(c) != '"'] + ['\u00e9', '\u65e5']
 
 
@@ -584,6 +613,7 @@ def run(ctx):
     lookup_workload(res, ctx, rng, arities)
     if ctx.shard == 0:
         identical_lookups(res, ctx, rng, arities)
+    sibling_lookups(res, ctx, rng, arities)
     scale_lookups(res, ctx, rng, arities)
     edge_characters(res, ctx, rng, arities)
     narrow_words(res, ctx, rng, arities)
@@ -602,6 +632,7 @@ def run(ctx):
     res.require('reuse_rounds', 10)
     res.require('lookup_histories_through_a_dump', 10)
     res.require('identical_lookup_windows', 8)
+    res.require('sibling_lookup_windows', 40)
     res.require('scale_lookup_windows', 4)
     res.require('edge_character_texts', 2000)
     res.require('narrow_word_lookups', 20)
